@@ -160,11 +160,6 @@ theorem run_ncomp_range {α} [DecidableEq α] (K : Kern) (P : PPrms α) (hK : Ke
   have := hrange nc[ind] (List.getElem_mem hi')
   simp only [hnc]
   rcases this with h | h | h | h <;> rw [h] <;> simp
-/-- The heights of the hits of group `cid` in the time order returned by the sort (what `find_layers`
-hands to `ncomp_from_gmm`). -/
-def groupHeights {α} (K : Kern) (data : List (Hit α)) (gids : List Int) (cid : Int) : List Rat :=
-  ((K.dtOrder (data.map (·.dt))).filter fun i => gids[i]? == some cid).filterMap fun i => (data[i]?).bind (·.height)
-
 theorem groupHeights_eq {α} (K : Kern) (data : List (Hit α)) (gids : List Int) (cid : Int) :
     groupHeights K data gids cid = grpHs data (grpPos K data gids cid) := rfl
 
